@@ -412,7 +412,7 @@ pub fn gen_case(rng: &mut Rng, tier: Tier, for_sweep: bool) -> Case13 {
     let dir = dir_of(&file).unwrap_or_default();
     let mut ref_kind: String;
     let mut map_class = "valid".to_string();
-    let pick = if for_sweep { 6 + rng.below(2) } else { rng.below(20) };
+    let pick = if for_sweep { 6 + rng.below(2) } else { rng.below(21) };
     match pick {
         0 | 1 => {
             ref_kind = "none".into();
@@ -503,6 +503,29 @@ pub fn gen_case(rng: &mut Rng, tier: Tier, for_sweep: bool) -> Case13 {
             fs.nodes.insert(join(&dir, "lit.map"), FsNode::Text(valid_map.clone()));
             source = format!("const lookalike = \"//# sourceMappingURL=lit.map\";\nfunction q(a, b) {{ return a + `# sourceMappingURL=lit.map` + b; }}\n{}\n//# sourceMappingURL=lit.map\n", source);
             ref_kind = "lookalike-literal".into();
+        }
+        19 => {
+            // index maps whose sections point at other map files, including cycles
+            let cyc = rng.below(3);
+            let sec = |url: &str| json!({"version": 3, "sections": [{"offset": {"line": 0, "column": 0}, "url": url}]}).to_string();
+            match cyc {
+                0 => {
+                    fs.nodes.insert(join(&dir, "idx.map"), FsNode::Text(sec("idx.map")));
+                }
+                1 => {
+                    fs.nodes.insert(join(&dir, "idx.map"), FsNode::Text(sec("maps/b.map")));
+                    fs.nodes.insert(join(&dir, "maps/b.map"), FsNode::Text(sec("../idx.map")));
+                    fs.nodes.insert(join(&join(&dir, "maps"), "../idx.map"), FsNode::Text(sec("maps/b.map")));
+                    fs.nodes.insert(join(&dir, "b.map"), FsNode::Text(sec("idx.map")));
+                }
+                _ => {
+                    fs.nodes.insert(join(&dir, "idx.map"), FsNode::Text(sec("leaf.map")));
+                    fs.nodes.insert(join(&dir, "leaf.map"), FsNode::Text(valid_map.clone()));
+                }
+            }
+            source.push_str("\n//# sourceMappingURL=idx.map\n");
+            ref_kind = "external-index-map-with-section-urls".into();
+            map_class = ["index-self-cycle", "index-two-cycle", "index-acyclic"][cyc].into();
         }
         _ => {
             let url = format!("{}.map", "x".repeat(rng.range(300, 6000)));
@@ -646,8 +669,10 @@ fn run_case(c: &Case13) -> CaseResult {
             format!("{} read() calls for {} bytes served and {} injected faults", s.read_calls, s.bytes_served, faults_total),
         ));
     }
+    // an implementation may legitimately open more than one file per reference (e.g. sections of
+    // an index map); only an unbounded number of opens is a liveness problem
     let refs = count_refs(&c.source).max(1);
-    if s.opens.len() > refs {
+    if s.opens.len() > 64 * refs {
         viol.push(Violation::new(
             "T3",
             "T3:unbounded-opens",
